@@ -424,6 +424,20 @@ def gen_c05(ctx):
         if rng.random() < 0.1:
             c['n'] = rng.choice([400, 600]); c['oracle'] = 0; c['dens'] = round(3.0 / c['n'], 5)
         items.append(({'variant': 'asan', 'prec': pv[i], 'per_process': False, 'env': env}, c))
+    # symmetric mode reserves L from the Cholesky bound of A+A': structurally unsymmetric, diagonally dominant inputs,
+    # small relaxation parameters (relaxed supernodes that end inside a bound supernode), static and dynamic storage
+    NSY = 900 if ctx.quick else 12000
+    pv = spread(rng, NSY)
+    for i in range(NSY):
+        c = factor_case(rng, True, 'gstrf', fams=['rand', 'band', 'grid', 'forest', 'chain', 'tree', 'star'], pmodes=(0, 1), nps=[1, 2, 4])
+        c['symm'] = 1; c['ord'] = rng.choice([2, 2, 0]); c['u'] = 0.0; c['vals'] = 'generic'; c['dom'] = rng.choice(['row', 'col'])
+        c.pop('rscale', None); c.pop('cscale', None); c.pop('shufrows', None)
+        c['relax'] = rng.choice([1, 1, 2, 3, 4, 6]); c['maxsup'] = max(c['relax'], rng.choice([4, 8, 24])); c['w'] = rng.choice([1, 2, 3, 4])
+        if c['fam'] == 'band': c['bl'] = rng.choice([1, 2, 3, 6]); c['bu'] = rng.choice([0, 0, 1, 3])
+        if c['fam'] == 'chain': c['lower'] = 1
+        env = {'SuperLU_DYNAMIC_SNODE_STORE': '1'} if (rng.random() < 0.25 and c['np'] == 1) else {}
+        if env: c['dyn'] = 1
+        items.append(({'variant': 'asan' if i % 2 else 'plain', 'prec': pv[i], 'env': env}, c))
     # exhaustive forced pivot orders on small patterns under ASan (all pivot sequences)
     k = 0
     nmax = 3 if ctx.quick else 4
@@ -504,13 +518,25 @@ def gen_c09(ctx):
             drv_extras(rng, c)
         c['oracle'] = 0 if rng.random() < 0.5 else 1
         items.append(({'variant': 'plain', 'prec': pv[i]}, c))
+    # returned structures after REfactorizations (L/U objects rebound in place; the supernode partition may differ from the
+    # previous call's): first factorization, then refactorizations with new values / other thread counts, validator after each
+    NR = 600 if ctx.quick else 8000
+    for i in range(NR):
+        c = hist_base(rng, ctx.quick)
+        if i % 3 == 0: c['fam'] = 'blockdiag'; c['bs'] = rng.choice([2, 3, 6])
+        c['ops'] = rng.choice(['F,R0,R1', 'F,R0,S0,R0,S1', 'F,R1,R0,R1', 'F,R0,D,F,R0'])
+        c['nps'] = ','.join(str(rng.choice([1, 2, 4, 8])) for _ in range(4))
+        c['u'] = rng.choice([1.0, 0.5, 0.0]); c['mem'] = rng.choice([0, 0, 1])
+        if c['mem']: c['lwfrac'] = 1.6
+        c['pmode'] = rng.choice([0, 1, 4]); c['pert'] = rng.randrange(1, 1 << 30)
+        items.append(({'variant': 'plain', 'prec': rng.choice(PRECS)}, c))
     return items
 
-PROPS['C09'] = dict(gen=gen_c09, relevant=('C09|',), counters=EV_COUNTERS, nontrivial=nontrivial_factor, batch=30,
+PROPS['C09'] = dict(gen=gen_c09, relevant=('C09|', 'C08|factors-malformed'), counters=EV_COUNTERS + ('nrefact',), nontrivial=lambda r: nontrivial_factor(r) or (r.get('result') or {}).get('nrefact', 0) >= 1, batch=30,
                     rule=RULE_FACTOR + '; oracle: structural validator over L (SCP), U (NCP), perm_r, perm_c: bijections, contiguous supernode tiling, row-list heads/ranges/duplicates, '
                     'value extents (length, stride, disjointness), U rows above the supernode, nnz fields, index order = dependency order; the event log counts how often '
                     'supernode numbers and subscript storage were handed out in different orders',
-                    floors={'ns_mismatch': 1, 'pipe_takes': 50})
+                    floors={'ns_mismatch': 1, 'pipe_takes': 50, 'nrefact': 300})
 
 # ----------------------------------------------------------------------------
 # expert driver workloads (C06 C07 C11 C12 C13)
